@@ -1,25 +1,25 @@
----- MODULE MC_C04_thorough_B_offsets ----
+---- MODULE MC_C04_quick_S_size_sweep ----
 EXTENDS C04
-MC_DomH1 == {1,5}
-MC_DomH2 == {0,3,6}
-MC_DomH3 == {0,2,5}
+MC_DomH1 == {5}
+MC_DomH2 == {100}
+MC_DomH3 == {77}
 MC_DomH4 == {7}
 MC_DomH5 == {9}
 MC_DomHDKG == {1}
 MC_DomHR == {1}
 MC_DomHID == {1}
-MC_Shapes == {<<2,2>>, <<3,2>>}
-MC_IdSets == {{3,5}, {1,3,5}}
+MC_Shapes == {<<n,n>> : n \in 2..10}
+MC_IdSets == {1..n : n \in 2..10}
 MC_MaxExtra == 0
-MC_Deltas == 1..6
+MC_Deltas == {1,256}
 MC_Kinds == {"add"}
-MC_KeyChoices == {3}
+MC_KeyChoices == {200}
 MC_CoeffChoices == {5}
 MC_RandChoices == {1}
 MC_MsgA == <<104,105>>
 MC_MsgB == <<>>
 MC_Modes == <<"Disabled", "FirstCheater", "AllCheaters">>
-MC_MaxCheaters == 99
+MC_MaxCheaters == 2
 MC_EMIT == TRUE
 
 ====
